@@ -193,7 +193,15 @@ class Exec(Interp):
         if k == 'str':
             return ('ref', self.alloc(st, ('strlit', c['v'])))
         if k == 'fn':
-            return ('fn', c['def'])
+            d = c['def']
+            a = c.get('args') or []
+            if a and self.body(d) is None and self.body('G:' + d) is None and '::' in d:
+                # a trait method named through the trait (`Self::from` as a function value): select the impl by the written type arguments
+                tr, meth = d.rsplit('::', 1)
+                cand = '<%s as %s%s>::%s' % (a[0], tr, ('<' + ', '.join(a[1:]) + '>') if len(a) > 1 else '', meth)
+                if self.body(cand) is not None or self.body('G:' + cand) is not None:
+                    return ('fn', cand)
+            return ('fn', d)
         if k in ('promoted', 'constitem'):
             # interpret the tiny body of the promoted constant / const item
             bid = ('P:%s:%d' % (c['of'], c['index'])) if k == 'promoted' else ('C:' + c['def'])
